@@ -45,15 +45,15 @@ Theorem C04_refused_changes_nothing : forall a c m e o fence,
 Proof. exact spec_reject_no_change. Qed.
 
 Theorem C04_clunk_always_unbinds : forall a c f p o fence,
-  a_fids a c f = Some p -> a_fids (fst (spec_step a c (Tclunk f) o fence)) c f = None.
+  a_fids a c f = Some p -> o <> BPanicEarly -> a_fids (fst (spec_step a c (Tclunk f) o fence)) c f = None.
 Proof. exact spec_clunk_unbinds. Qed.
 Theorem C04_remove_always_unbinds : forall a c f p o fence,
-  a_fids a c f = Some p -> a_fids (fst (spec_step a c (Tremove f) o fence)) c f = None.
+  a_fids a c f = Some p -> o <> BPanicEarly -> a_fids (fst (spec_step a c (Tremove f) o fence)) c f = None.
 Proof. exact spec_remove_unbinds. Qed.
 Print Assumptions C04_remove_always_unbinds.
 
 Theorem C04_bind_only_on_success : forall a c m o fence e,
-  binds m = true -> snd (spec_step a c m o fence) = Some e ->
+  binds m = true -> (forall k fz n, o <> BPanicLate k fz n) -> snd (spec_step a c m o fence) = Some e ->
   fst (spec_step a c m o fence) = a \/ fst (spec_step a c m o fence) = apply_fence fence a.
 Proof. exact spec_bind_only_on_success. Qed.
 Theorem C04_walk_binds_newfid : forall a c f nf n names p k fz sz fence,
